@@ -849,4 +849,9 @@ func exec(line string) string {
 	return "bad-op"
 }
 
-func main() { hx.Main(hx.Harness{Gen: gen, Exec: exec}) }
+func main() {
+	hx.Main(hx.Harness{Gen: gen, Exec: exec})
+	if tmpDir != "" {
+		os.RemoveAll(tmpDir)
+	}
+}
